@@ -1,8 +1,9 @@
 #!/usr/bin/env python3
 """make_round_prompts.py <worktree root>: writes <root>/prompts/Cxx.txt for a round of independent seeded changes.
 The prompt contains ONLY the property's text and the location of the agent's scratch worktree (nothing from /verif)."""
-import json, sys
+import json, os, sys
 root = sys.argv[1]
+VARIANT = os.environ.get("ROUND_VARIANT", "3")
 base = """You are working on a scratch git worktree of the open-source repository aws/aws-durable-execution-sdk-python
 (Python SDK for AWS Lambda durable functions: a checkpoint-and-replay workflow engine with steps, waits, callbacks,
 parallel/map, child contexts and a background checkpoint batcher).
@@ -47,6 +48,10 @@ Verify yourself for each change: full test suite passes WITH the change; demo fa
 can only produce two, deliver two. When done, leave the worktree's src/ UNMODIFIED (git checkout -- src) with only _out/ added.
 Final answer: at most 12 lines -- for each change one sentence on what it does and whether all three verifications succeeded.
 """
+if VARIANT == "4":
+    base = base.replace("Produce THREE independent, realistic changes", "Produce TWO independent, realistic changes").replace("(three different mechanisms at three different code\nsites; at least one of them", "(two different mechanisms at two different code\nsites, in two DIFFERENT functions; at least one of them")
+    base = base.replace("Think of plausible developer mistakes:", "At least one of the two should look like a well-meant improvement (a performance shortcut, a defensive check, a simplification, a\ncaching or batching tweak, a tidier API use) whose harm to the property is an unintended side effect. Think of plausible developer mistakes:")
+    base = base.replace("  {wt}/_out/m2/...  and  {wt}/_out/m3/...   (same for changes 2 and 3)", "  {wt}/_out/m2/...   (same for change 2)").replace("If after honest effort you\ncan only produce two, deliver two. ", "")
 for l in open('/verif/properties.jsonl'):
     p = json.loads(l)
     wt = f"{root}/{p['id']}"
